@@ -96,6 +96,7 @@ def run(c):
     c.transitions += sim.generated
     c12.replay(c, sim.behaviours, 'register/unregister',
                want=lambda names: names.count('Register') >= 2 and 'Unregister' in names)
+    c12.concurrent_leg(c, c12.CONCURRENT_SCRIPTS[2:], 2 if quick else 3, 400 if quick else 6000)
     behavioural(c, wd)
 
 
